@@ -231,6 +231,15 @@ def fluentLine (rs : RibSt) (fl : FlSt) (ts : List Tok) : RibSt × FlSt :=
           (cmpFields rs c (renderFields fs) impl, { fl with client := c' })
         | _, _, _ => (bad rs, fl)
       | _, _ => (bad rs, fl)
+    else if c = "fl.initelec" then
+      -- WithInitialElectionID on the connection of a running client: no message, the client's
+      -- current election id is the one given
+      match args with
+      | [lo, hi] =>
+        match natOf lo, natOf hi with
+        | some lo, some hi => (rs.covr "fl.initelec", { fl with client := { fl.client with curElec := some (lo, hi) } })
+        | _, _ => (bad rs, fl)
+      | _ => (bad rs, fl)
     else if c = "fl.req" then
       -- a Get / Flush request on the wire against the request built directly from the setters of
       -- the chain that produced it (C18: the builders emit exactly what was set — by this chain)
